@@ -207,6 +207,10 @@ func (tce *transactionCostEstimator) getTxGasLimit(tx *transaction.Transaction) 
 	accountSenderBalance := accountSender.GetBalance()
 	tx.GasLimit = maxGasLimitPerBlock
 	txFee := tce.feeHandler.ComputeTxFee(tx)
+	if tx.Value != nil {
+		// the sender has to afford the transferred value as well
+		txFee = big.NewInt(0).Add(txFee, tx.Value)
+	}
 	if txFee.Cmp(accountSenderBalance) > 0 && big.NewInt(0).Cmp(accountSenderBalance) != 0 {
 		return tce.feeHandler.ComputeGasLimitBasedOnBalance(tx, accountSenderBalance)
 	}
